@@ -2,11 +2,12 @@
 H.265 SPS: the whole decode on the bytes of the specification's encoder.
 -/
 import IpcHub.Lemmas.HevcBody
+import IpcHub.Lemmas.HevcRps
 namespace IpcHub.Hevc
 open IpcHub.Bits IpcHub.BitSyntax IpcHub.HevcSyntax IpcHub.Epb
 
-/-- value ranges for the second part of the SPS; `rps` restricts the short-term reference picture sets to
-    explicitly coded ones (see the `_partial` theorem) -/
+/-- value ranges for the second part of the SPS; `rps`: every short-term reference picture set — explicitly coded
+    or predicted from its predecessor — is well-formed relative to the 7.4.8 arrays of the predecessor -/
 structure BodyWF (s : SpsSyn) : Prop where
   msl : s.ptl.sub_layers.length ≤ 6
   bdl : s.bit_depth_luma_minus8 < 256                       -- 0 … 8
@@ -29,7 +30,7 @@ structure BodyWF (s : SpsSyn) : Prop where
   pcm3 : s.log2_min_pcm_luma_coding_block_size_minus3 < 256
   pcm4 : s.log2_diff_max_min_pcm_luma_coding_block_size < 256
   nrps : s.st_ref_pic_sets.length < 256                     -- 0 … 64
-  rps : wfExplicitSets s.st_ref_pic_sets
+  rps : SetsWF 0 {} s.st_ref_pic_sets
   lt : s.long_term_ref_pics_present_flag = true → s.long_term.length ≤ 32 ∧
         wfLongTerm (s.log2_max_pic_order_cnt_lsb_minus4 + 4) s.long_term = true
   vui : s.vui_parameters_present_flag = true → VuiWF s.vui s.ptl.sub_layers.length
@@ -74,8 +75,9 @@ theorem spsBody_enc (cfg : Cfg) (ok : CfgOK cfg) (s : SpsSyn) (q : Ptl) (wf : Bo
   obtain ⟨sc, hsc⟩ := bodyScaling_enc cfg ok s (flag s.amp_enabled_flag ++ (flag s.sample_adaptive_offset_enabled_flag ++
     (encPcm s ++ (ue s.st_ref_pic_sets.length ++ (encStRpsList 0 s.st_ref_pic_sets ++ (encLongTermPart s ++
     (flag s.sps_temporal_mvp_enabled_flag ++ (flag s.strong_intra_smoothing_enabled_flag ++ (encVuiPart s ++ (encExt s ++ r)))))))))) wf.sl
-  obtain ⟨rps, hrps⟩ := stRpsLoop_explicit cfg ok s.st_ref_pic_sets 0 [] (encLongTermPart s ++
+  obtain ⟨rps, hrps⟩ := stRpsLoop_enc cfg ok s.st_ref_pic_sets 0 [] {} (encLongTermPart s ++
     (flag s.sps_temporal_mvp_enabled_flag ++ (flag s.strong_intra_smoothing_enabled_flag ++ (encVuiPart s ++ (encExt s ++ r))))) wf.rps
+    (fun h => absurd rfl h)
   have hmsl : (headOf s q).spsMaxSubLayersMinus1 = s.ptl.sub_layers.length := rfl
   refine ⟨sc, rps, ?_⟩
   simp only [spsBody, encSpsBody, List.append_assoc, bind_apply, hmsl, readUe8_ue _ _ wf.bdl, readUe8_ue _ _ wf.bdc,
